@@ -200,6 +200,47 @@ func cmdC01(seed uint64, tier, outdir string) {
 			run(bc, []corpusDoc{*na, *nb}, "nested")
 		}
 	}
+	// a user-added document whose words are hyphenated across line breaks with ASCII and typographic dashes,
+	// planted behind every pad width of a window around the tokenizer's read-buffer refill points: the copy must be
+	// found whole at 1.0 wherever its bytes fall
+	for rep := 0; rep < 2; rep++ {
+		var ws []string
+		for j := 0; j < 60; j++ {
+			w := synthVocab[r.intn(24)] + synthVocab[r.intn(24)]
+			if j%3 == 1 {
+				a := 2 + r.intn(len(w)-3)
+				w = w[:a] + []string{"-", "‐", "‒", "–", "—"}[r.intn(5)] + "\n" + w[a:]
+			}
+			ws = append(ws, w)
+		}
+		doc := corpusDoc{"License", "Hyphenated", "h.txt", []byte(strings.Join(ws, " "))}
+		bc := buildCorpus([]float64{0.8, 0.9, 1.0}[r.intn(3)], []corpusDoc{doc})
+		nt, fl, ll, _ := tokCountLines(bc.c, doc.text)
+		_ = fl
+		for _, base := range []int{0, 1020, 2040} {
+			for off := -25; off <= 5; off++ {
+				pad := base + off - 5
+				if pad < 0 {
+					continue
+				}
+				// "zzqx" + pad blanks + newline + document: the first dash of the document sits near the refill point for some pad
+				data := []byte("zzqx" + strings.Repeat(" ", pad) + "\n" + string(doc.text) + "\nzzqx\n")
+				res := bc.c.Match(data)
+				cw.printf("hyphenated-at-chunk-boundary pad=%d thr=%v %s\n", pad, bc.thr, quoteBytes(doc.text, 120))
+				ok := false
+				for _, m := range res.Matches {
+					if m.Name == "Hyphenated" && m.Confidence == 1.0 && m.StartTokenIndex == 1 && m.EndTokenIndex == nt && m.StartLine == 2 && m.EndLine == 1+ll {
+						ok = true
+					}
+				}
+				if ok {
+					vw.printf("OK 1\n")
+				} else {
+					vw.printf("VIOL - copy of a hyphenated user document behind %d blanks (threshold %v) not reported whole at 1.0: %s\n", pad, bc.thr, fmtResults(res))
+				}
+			}
+		}
+	}
 	// nested documents on purpose: A small; B = S + own words; C = A + S.  Planting A and B close together makes
 	// C a fuzzy candidate that contains A and overlaps B; both exact copies must survive the overlap resolution
 	for i := 0; i < 6+n/20; i++ {
@@ -422,6 +463,28 @@ func cmdC0203(seed uint64, tier, outdir string) {
 			doCase(bc, input{fmt.Sprintf("near-threshold(%v,k=%d):%s", thr, k, d.name), []byte(strings.Join(out, " "))})
 		}
 	}
+	// confidence mathematically EQUAL to the threshold: a document of k distinct words, d of them replaced, with
+	// 1 - d/k = p/100 exactly; every whole-percent threshold from 5 to 99 (float64 rounds some of these below p/100)
+	for pct := 5; pct <= 99; pct++ {
+		thr := float64(pct) / 100
+		for _, k := range []int{100, 200} {
+			var ws []string
+			for j := 0; j < k; j++ {
+				s := "w"
+				for v := j + 1; v > 0; v /= 26 {
+					s += string(rune('a' + v%26))
+				}
+				ws = append(ws, s)
+			}
+			bcx := buildCorpus(thr, []corpusDoc{{"License", "Exact", "e.txt", []byte(strings.Join(ws, " "))}})
+			d := (100 - pct) * k / 100
+			in := append([]string{}, ws...)
+			for j := 0; j < d; j++ {
+				in[(j*k)/d+(k/d)/2] = oovWords[j%len(oovWords)]
+			}
+			doCase(bcx, input{fmt.Sprintf("confidence-equals-threshold(%d%%,k=%d)", pct, k), []byte(strings.Join(in, " "))})
+		}
+	}
 	// several matches whose confidences differ by less than a percentage point: the order must still be by confidence
 	for k := 0; k < 10+n/10; k++ {
 		var parts []string
@@ -439,7 +502,9 @@ func cmdC0203(seed uint64, tier, outdir string) {
 	// dictionaries larger than the ranges in which token ids change representation (55296 = first UTF-16
 	// surrogate: the ids travel through go-diff as runes; 65536 = 16 bits): two fresh 30-word documents K and O
 	// interned after that many filler words, inputs = K with one or two words replaced by words of O
-	for _, nfill := range []int{55300, 65600} {
+	// the 60 fresh words get the ids nfill+2 .. nfill+61: around 0xD800 (first surrogate), around the id that is encoded
+	// as U+FFFD / U+FFFE / U+FFFF after the surrogate shift (63485..63487), around 2^16
+	for _, nfill := range []int{55270, 63460, 65500, 65600} {
 		wd := func(prefix string, i int) string {
 			s := prefix
 			for v := i + 1; v > 0; v /= 26 {
@@ -458,13 +523,20 @@ func cmdC0203(seed uint64, tier, outdir string) {
 		docs := []corpusDoc{{"License", "Filler", "f.txt", []byte(strings.Join(filler, " "))},
 			{"License", "K", "k.txt", []byte(strings.Join(kw, " "))}, {"License", "O", "o.txt", []byte(strings.Join(ow, " "))}}
 		bc := buildCorpus(0.8, docs)
-		for v := 0; v < 4; v++ {
+		// every word of K in turn replaced by a word of O (so every id of the window appears in an Insert and
+		// every id of O's window in a Delete), and a few double replacements
+		for v := 0; v < 30; v++ {
 			in := append([]string{}, kw...)
-			in[3+r.intn(24)] = ow[r.intn(30)]
-			if v%2 == 1 {
-				in[3+r.intn(24)] = ow[r.intn(30)]
+			in[v] = ow[v]
+			if v%5 == 4 {
+				in[(v+7)%30] = ow[r.intn(30)]
 			}
-			doCase(bc, input{fmt.Sprintf("large-dictionary(%d):K-with-words-of-O", nfill), []byte(strings.Join(in, " "))})
+			doCase(bc, input{fmt.Sprintf("large-dictionary(%d):K-with-word-%d-of-O", nfill, v), []byte(strings.Join(in, " "))})
+			// the word missing altogether (a pure Insert in the diff), and a word of O added next to it (a pure Delete)
+			miss := append(append([]string{}, kw[:v]...), kw[v+1:]...)
+			doCase(bc, input{fmt.Sprintf("large-dictionary(%d):K-without-word-%d", nfill, v), []byte(strings.Join(miss, " "))})
+			extra := append(append(append([]string{}, kw[:v]...), ow[v]), kw[v:]...)
+			doCase(bc, input{fmt.Sprintf("large-dictionary(%d):K-with-an-extra-word-at-%d", nfill, v), []byte(strings.Join(extra, " "))})
 		}
 	}
 	type outc struct{ c2, c3 string }
@@ -802,7 +874,10 @@ func cmdC10(seed uint64, tier, outdir string) {
 					b.c.Normalize(in)
 				case "AddContent":
 					c2 := classifier.NewClassifier(b.thr)
-					c2.AddContent("License", "X", "x.txt", in)
+					// any strings are accepted as category, name and variant, empty ones included
+					keys := [][3]string{{"License", "X", "x.txt"}, {"License", "Acme-EULA", ""}, {"", "known", ""}, {"", "", ""}, {"License", "", "v.txt"}, {"a/b", "..", "."}}
+					k := keys[i%len(keys)]
+					c2.AddContent(k[0], k[1], k[2], in)
 					c2.Match(in)
 				}
 				done <- ""
